@@ -1,6 +1,7 @@
 SPECIFICATION Spec
 CONSTANTS
   ShardFailureFix = TRUE
+  DescriptionSortFix = TRUE
   CursorFix = TRUE
   CursorRawDecode = FALSE
   NullMemberFix = TRUE
@@ -8,6 +9,7 @@ CONSTANTS
   TreeLevel = 1
   MaxHitsKeys = 2
   MaxItems = 3
+  MaxWideItems = 2
   MaxHits = 2
   MaxPages = 2
 INVARIANT PropertyHolds
